@@ -50,7 +50,7 @@ def registry_term(ctx: Ctx):
     """The container that run()'s cleanup cancels: term of the iterable of the cancel loop."""
     g = ctx.graph(ctx.manager_run().fid)
     for lp in cancel_loops(ctx, g):
-        return sym.term(ctx.p, _iter_source(lp.info['iter']), lp.inst)
+        return sym.term(ctx.p, _iter_source(lp.info['iter'], lp.inst.unit), lp.inst)
     return None
 
 
@@ -65,7 +65,7 @@ def _fallback_registry(ctx: Ctx):
     return None
 
 
-def _iter_source(e: ast.AST) -> ast.AST:
+def _iter_source(e: ast.AST, unit=None) -> ast.AST:
     """The container a loop really walks: a filter / copy of it (`[t for t in X if ...]`, list(X), tuple(X), reversed(X),
     filter(p, X)) walks elements of X."""
     for _ in range(4):
@@ -76,6 +76,14 @@ def _iter_source(e: ast.AST) -> ast.AST:
             e = e.args[0]
         elif isinstance(e, ast.Call) and isinstance(e.func, ast.Name) and e.func.id == 'filter' and len(e.args) == 2:
             e = e.args[1]
+        elif isinstance(e, ast.Name) and unit is not None and not isinstance(unit.node, ast.Lambda):
+            # a local that holds such a filter / copy (`pending = [t for t in tasks if ...]; for t in pending: ...`)
+            vals = [a.value for a in ast.walk(unit.node) if isinstance(a, (ast.Assign, ast.AnnAssign)) and a.value is not None
+                    and any(isinstance(x, ast.Name) and x.id == e.id for x in (a.targets if isinstance(a, ast.Assign) else [a.target]))]
+            if len(vals) == 1 and isinstance(vals[0], (ast.ListComp, ast.GeneratorExp, ast.SetComp, ast.Call)):
+                e = vals[0]
+            else:
+                break
         else:
             break
     return e
